@@ -327,6 +327,9 @@ E(t, v, e, ctx) ==
     [] t.k = "adapter" -> E(t.c, v, e, ctx)
 
 \* ------------------------------------------------------------------ decoder
+\* Model bound: a length-prefixed collection announcing more entries than this is not decoded (the
+\* implementation would loop that many times; no encoding explored by the model is that long).
+CountCap == 300
 RECURSIVE D(_, _, _, _)
 RECURSIVE DTuple(_, _, _, _, _)
 DTuple(ts, bs, e, ctx, acc) ==
@@ -402,7 +405,8 @@ D(t, bs, e, ctx) ==
     [] t.k = "coll" ->
          IF t.m = "prefix"
          THEN LET p == DecInt(t.p, bs, e) IN
-              IF ~p.ok THEN Fail ELSE IF ~Is(p.v, "i") THEN Fail ELSE DCollN(t.c, p.v.i, p.r, e, ctx, <<>>)
+              IF ~p.ok THEN Fail ELSE IF ~Is(p.v, "i") THEN Fail ELSE IF p.v.i > CountCap THEN Fail
+              ELSE DCollN(t.c, p.v.i, p.r, e, ctx, <<>>)
          ELSE IF t.m = "fixed" THEN DCollN(t.c, t.n, bs, e, ctx, <<>>)
          ELSE DCollG(t.c, bs, e, ctx, <<>>)
     [] t.k = "optprefix" ->
